@@ -53,6 +53,12 @@ def r1(ctx):
             loc = f"{f.module.path}:{y.lineno}"
             ctx.require(y.value is not None, f"bare yield in {name}")
             k = of.kind(y.value, f)
+            if k.k == UNKNOWN and isinstance(y, ast.Yield) and isinstance(y.value, ast.Name) and any(
+                    isinstance(a, ast.For) and isinstance(a.target, ast.Name) and a.target.id == y.value.id
+                    for a in _ancestors(f.module.parents(), y)):
+                # `for x in <subset>: yield x` -- one element at a time: the order is decided by the loops around the
+                # yield alone (loop_context below), the element itself carries none
+                k = Kind(ORD, "one element of an enclosing loop (order decided by the loops)")
             if isinstance(y, ast.YieldFrom) and k.k == SET:
                 k = Kind(TAINTED, f"`yield from` iterates a set ({k.why})")
             lc = of.loop_context(y, f)
@@ -429,6 +435,17 @@ def _same_input(ctx, f, expr, param, at, depth=0, expanding=frozenset()):
         return False
     if isinstance(expr, ast.Call) and call_name(expr) in _MATERIALISE and len(expr.args) == 1 and not expr.keywords:
         return _same_input(ctx, f, expr.args[0], param, at, depth + 1, expanding)
+    if isinstance(expr, (ast.ListComp, ast.SetComp, ast.GeneratorExp)) and len(expr.generators) == 1:
+        # identity comprehension `[p for p in X]`: every element, unchanged (a filter or a mapped element is not a copy)
+        gen = expr.generators[0]
+        if not gen.ifs and not gen.is_async and isinstance(gen.target, ast.Name) and isinstance(expr.elt, ast.Name) \
+                and expr.elt.id == gen.target.id:
+            return _same_input(ctx, f, gen.iter, param, at, depth + 1, expanding)
+        return False
+    if isinstance(expr, ast.Starred):
+        return _same_input(ctx, f, expr.value, param, at, depth + 1, expanding)
+    if isinstance(expr, (ast.List, ast.Tuple, ast.Set)) and len(expr.elts) == 1 and isinstance(expr.elts[0], ast.Starred):
+        return _same_input(ctx, f, expr.elts[0].value, param, at, depth + 1, expanding)   # [*X]
     if isinstance(expr, ast.Name):
         if expr.id in expanding:
             return expr.id == param
@@ -791,10 +808,13 @@ UNUSED_BY_CONTRACT = {
 }
 
 
-@R.rule("C19-R5", floor=7, template="T-FLOW",
+@R.rule("C19-R5", floor=12, template="T-FLOW/T-SIBLING",
         desc="every input parameter of the public functions of util/topological.py (items and dependency pairs) is "
              "read by the function: a result that is computed without reading `allitems` cannot be restricted to "
-             "'the items that lie on a cycle', one computed without the pairs cannot respect them")
+             "'the items that lie on a cycle', one computed without the pairs cannot respect them; the three functions "
+             "answer for the same graph: sort() hands its OWN pairs and items (element for element) to sort_as_subsets() and "
+             "yields every element of every subset; sort_as_subsets() and find_cycles() enter every pair into their edge map "
+             "(no selection by a test on the pair's members)")
 def r5(ctx):
     m = ctx.index.module(TOPO)
     public = ctx.ev.module_value(m, "__all__")
@@ -816,6 +836,399 @@ def r5(ctx):
                       f"cannot be confined to / take account of `{arg.arg}` (e.g. cycles among objects that are not in the "
                       f"item collection are reported as if they were items)",
                       f"`{arg.arg}` read {len(reads)} time(s)", f.loc)
+    _sort_is_flattened_subsets(ctx)
+    for name in ("sort_as_subsets", "find_cycles"):
+        _every_pair_enters_edge_map(ctx, ctx.func(f"{TOPO}::{name}"))
+
+
+def _top_stmt(f, node):
+    """the statement of f's own body that contains `node`"""
+    for st in f.node.body:
+        if any(x is node for x in ast.walk(st)):
+            return st
+    return None
+
+
+def _sort_is_flattened_subsets(ctx):
+    """sort(tuples, allitems) is by definition the flattening of sort_as_subsets(tuples, allitems): the three public
+    functions answer for the SAME graph only if sort() hands over its own inputs -- every pair, every item, unchanged
+    (a filtered / mapped copy makes sort() disagree with sort_as_subsets() and find_cycles() on the pairs left out) --
+    and yields every element of every subset."""
+    s = ctx.func(f"{TOPO}::sort")
+    sas = ctx.func(f"{TOPO}::sort_as_subsets")
+    calls = []
+    for c in calls_in(s.node):
+        r = ctx.index.resolve(s.module, call_name(c) or "") if call_name(c) and "()" not in call_name(c) else None
+        if r is not None and getattr(r, "key", None) == sas.key:
+            calls.append(c)
+    ctx.require(len(calls) == 1, f"sort() calls sort_as_subsets {len(calls)} time(s): delegation not understood")
+    call = calls[0]
+    at = _top_stmt(s, call)
+    ctx.require(len(s.params) >= 2 and len(sas.params) >= 2, "sort / sort_as_subsets no longer take (pairs, items)")
+    for own, theirs, what in ((s.params[0], sas.params[0], "dependency pairs"), (s.params[1], sas.params[1], "items")):
+        a = arg_for(call, sas, theirs)
+        ok = a is not None and _same_input(ctx, s, a, own, at)
+        shown = "nothing" if a is None else f"`{unparse(a)[:60]}`"
+        if a is not None and isinstance(a, ast.Name) and not ok:
+            vals = [unparse(v)[:90] for n, v, st in name_stores(s.node) if n == a.id and v is not None]
+            if vals:
+                shown += " = " + " / ".join(f"`{v}`" for v in vals)
+        ctx.check(ok, f"{s.key}:delegates-own-input({own})",
+                  f"sort() hands {shown} to sort_as_subsets() as the {what} instead of its own `{own}` (the object itself or "
+                  f"an element-for-element copy): {what} are left out or changed before the sort, so sort() no longer orders / "
+                  f"reports cycles for the graph it was given and disagrees with sort_as_subsets() and find_cycles() on the "
+                  f"same input (e.g. a dropped pair (x, x) is a one-node cycle the other two report)",
+                  f"sort_as_subsets({theirs}=<own `{own}`>)", f"{s.module.path}:{call.lineno}")
+    # every element of every subset is yielded
+    g = ctx.cfg(s)
+    holders = [n for n, v, st in name_stores(s.node) if v is call]
+    if holders:
+        ctx.require(len(holders) == 1 and sum(1 for n, v, st in name_stores(s.node) if n == holders[0]) == 1,
+                    "sort(): the result of sort_as_subsets() is bound more than once")
+    loops = [n for n in walk_local(s.node) if isinstance(n, (ast.For,)) and (
+        any(x is call for x in ast.walk(n.iter)) or (holders and isinstance(n.iter, ast.Name) and n.iter.id == holders[0]))]
+    ctx.require(len(loops) == 1 and isinstance(loops[0].target, ast.Name),
+                "sort(): `for <subset> in sort_as_subsets(..)` not found (flattening not understood)")
+    loop = loops[0]
+    sub_name = loop.target.id
+    ys = [n for n in walk_local(s.node) if isinstance(n, (ast.Yield, ast.YieldFrom))]
+    problems = []
+    covered = False
+    pm = s.module.parents()
+    for y in ys:
+        st = enclosing_stmt(pm, y)
+        inner = None
+        if isinstance(y, ast.YieldFrom) and isinstance(y.value, ast.Name) and y.value.id == sub_name:
+            pass
+        elif isinstance(y, ast.Yield) and isinstance(y.value, ast.Name):
+            inner = next((lp for lp in ast.walk(loop) if isinstance(lp, ast.For) and lp is not loop and isinstance(lp.target, ast.Name)
+                          and lp.target.id == y.value.id and isinstance(lp.iter, ast.Name) and lp.iter.id == sub_name
+                          and any(x is y for x in ast.walk(lp))), None)
+            ctx.require(inner is not None, f"sort(): `{unparse(y)}` is not an element of a subset (flattening not understood)")
+        else:
+            ctx.error(f"sort(): `{unparse(y)}` is not an element of a subset (flattening not understood)")
+        if not any(x is y for x in ast.walk(loop)):
+            ctx.error(f"sort(): `{unparse(y)}` outside the loop over sort_as_subsets()")
+        guards = [gd for nid in g.nodes_for(st)[:1] for gd in g.edge_guards(nid)]
+        if guards:
+            problems.append(f"`{unparse(y)}` runs only under {[(unparse(t)[:50], p) for t, p in guards]}")
+        else:
+            covered = True
+    early = [n for n in ast.walk(loop) if isinstance(n, (ast.Break, ast.Return))]
+    if early:
+        problems.append(f"the flattening loop can stop early (line {early[0].lineno})")
+    ctx.check(covered and not problems, f"{s.key}:yields-every-element-of-every-subset",
+              "sort() does not yield every element of every subset of sort_as_subsets(): " + ("; ".join(problems) or "no yield"),
+              f"for {sub_name} in sort_as_subsets(..): yield every element, unconditionally", f"{s.module.path}:{loop.lineno}")
+
+
+def _every_pair_enters_edge_map(ctx, f):
+    """The edge map is the function's whole view of the dependencies: every pair of the input must enter it.  A pair
+    filtered out by a test on its own members (`if parent is not child`) silently removes a dependency -- for (x, x) the
+    one-node cycle.  (Membership of a member in the item collection may be tested: pairs about non-items cannot matter.)"""
+    pairs_p, items_p = f.params[0], f.params[1]
+    g = ctx.cfg(f)
+    builds = [n for n in walk_local(f.node) if isinstance(n, ast.For) and _same_input(ctx, f, n.iter, pairs_p, _top_stmt(f, n))
+              and _pair_target(n) is not None]
+    ctx.require(len(builds) == 1, f"{f.name}: expected one `for (a, b) in <pairs>` loop building the edge map, found {len(builds)}")
+    loop = builds[0]
+    members = set()
+    t = loop.target
+    members |= {x.id for x in ast.walk(t) if isinstance(x, ast.Name)}
+    for st in loop.body:
+        if isinstance(st, ast.Assign) and isinstance(st.value, ast.Name) and st.value.id in members:
+            members |= {x.id for tg in st.targets for x in ast.walk(tg) if isinstance(x, ast.Name)}
+    fills = []
+    pm = f.module.parents()
+    for c in calls_in(loop):
+        if isinstance(c.func, ast.Attribute) and c.func.attr in ("add", "append", "update", "extend") \
+                and {x.id for a in c.args for x in ast.walk(a) if isinstance(x, ast.Name)} & members:
+            fills.append(c)
+    for n in ast.walk(loop):
+        if isinstance(n, (ast.Assign, ast.AugAssign)):
+            tg = n.targets if isinstance(n, ast.Assign) else [n.target]
+            if any(isinstance(x, ast.Subscript) for x in tg) and {x.id for x in ast.walk(n.value) if isinstance(x, ast.Name)} & members:
+                fills.append(n)
+    ctx.require(fills, f"{f.name}: nothing is stored from the pairs inside the edge-map loop")
+    selective, unknown = [], []
+    for c in fills:
+        st = c if isinstance(c, ast.stmt) else enclosing_stmt(pm, c)
+        for test, pol in dominating_guards(g, pm, f.node, c, st):
+            if not any(x is test for x in ast.walk(loop)):
+                continue    # a guard outside the loop does not select pairs
+            names = {x.id for x in ast.walk(test) if isinstance(x, ast.Name)}
+            if isinstance(test, ast.Compare) and len(test.ops) == 1 and isinstance(test.ops[0], (ast.In, ast.NotIn)) \
+                    and _items_collection(ctx, f, test.comparators[0], items_p, st):
+                continue    # membership in the items
+            if names and names <= members:
+                selective.append((unparse(test), pol))
+            else:
+                unknown.append(unparse(test))
+    ctx.require(not unknown or selective, f"{f.name}: pairs enter the edge map under a condition that is not understood: {unknown}")
+    ctx.check(not selective, f"{f.key}:every-pair-enters-edge-map",
+              f"{f.name}() stores a dependency pair in its edge map only when {selective}: pairs are selected by a test on their "
+              f"own members, so some dependencies among the items are ignored (a pair (x, x) is a cycle of one item that must "
+              f"be reported)",
+              f"{len(fills)} store(s) in `for .. in {pairs_p}`, unconditional", f"{f.module.path}:{loop.lineno}")
+
+
+def _items_collection(ctx, f, e, items_p, at):
+    if _same_input(ctx, f, e, items_p, _top_stmt(f, at) or at):
+        return True
+    return False
+
+
+# ------------------------------------------------------------------ R6: a retry after CircularDependencyError
+# Consumers that break cycles themselves (`try: sort(P, items) except CircularDependencyError: <remove pairs>; sort(P', items)`)
+# may only give up pairs they are entitled to give up.  What a function is NOT entitled to give up is decided from its own
+# structure: a pair collection of the first attempt that the function never reduces anywhere (its non-negotiable
+# dependencies) and a collection that receives pairs handed in by the caller as such.  Every retry must sort a superset of
+# those: the collection itself, or a union / copy containing it that is built after the removals and never reduced
+# (a removal guarded by `pair not in <protected>` is fine).
+_REMOVERS = ("discard", "remove", "difference_update", "intersection_update", "symmetric_difference_update", "clear", "pop")
+_COPIES = ("set", "frozenset", "list", "tuple", "sorted")
+
+
+class _PairSets:
+    def __init__(self, ctx, f):
+        from ._helpers_rob_c2 import Scope
+        self.ctx, self.f = ctx, f
+        self.sc = Scope(ctx, f)
+        self.g = self.sc.g
+        self.pm = f.module.parents()
+        self.params = set(f.params)
+        self.removals = {}      # name -> [(call/stmt, element expr or None, cfg node)]
+        self.fills = {}         # name -> [(arg expr, cfg node)]
+        for n in self.sc.local_walk():
+            at = self.sc.node_of(n)
+            if isinstance(n, ast.Call) and isinstance(n.func, ast.Attribute) and isinstance(n.func.value, ast.Name):
+                nm = n.func.value.id
+                if n.func.attr in _REMOVERS:
+                    self.removals.setdefault(nm, []).append((n, n.args[0] if n.args else None, at))
+                elif n.func.attr in ("add", "update", "append", "extend"):
+                    for a in n.args:
+                        self.fills.setdefault(nm, []).append((a, at))
+            elif isinstance(n, ast.AugAssign) and isinstance(n.target, ast.Name):
+                at = self.sc.node_of(n.value)
+                if isinstance(n.op, (ast.Sub, ast.BitAnd, ast.BitXor)):
+                    self.removals.setdefault(n.target.id, []).append((n, None, at))
+                elif isinstance(n.op, (ast.BitOr, ast.Add)):
+                    self.fills.setdefault(n.target.id, []).append((n.value, at))
+            elif isinstance(n, ast.Delete):
+                for t in n.targets:
+                    if isinstance(t, ast.Subscript) and isinstance(t.value, ast.Name):
+                        self.removals.setdefault(t.value.id, []).append((n, None, None))
+
+    # -- structure of a pair-collection expression
+    def _derived_value(self, v):
+        """operands when `v` builds a new collection out of others: ('union'|'copy'|'lossy', [operands])"""
+        if isinstance(v, ast.Call) and isinstance(v.func, ast.Attribute) and v.func.attr == "union":
+            return "union", [v.func.value] + list(v.args)
+        if isinstance(v, ast.BinOp) and isinstance(v.op, ast.BitOr):
+            return "union", [v.left, v.right]
+        if isinstance(v, ast.Call) and call_name(v) in _COPIES and len(v.args) == 1 and not v.keywords:
+            return "copy", [v.args[0]]
+        if isinstance(v, ast.Call) and isinstance(v.func, ast.Attribute) and v.func.attr == "copy" and not v.args:
+            return "copy", [v.func.value]
+        if isinstance(v, (ast.Set, ast.List, ast.Tuple)) and v.elts and all(isinstance(e, ast.Starred) for e in v.elts):
+            return "union", [e.value for e in v.elts]
+        if isinstance(v, ast.BinOp) and isinstance(v.op, (ast.Sub, ast.BitAnd, ast.BitXor)):
+            return "lossy", [v.left]
+        if isinstance(v, ast.Call) and isinstance(v.func, ast.Attribute) and \
+                v.func.attr in ("difference", "intersection", "symmetric_difference"):
+            return "lossy", [v.func.value]
+        return None
+
+    def _name_defs(self, name, at):
+        """(derived values [(value, node)], is_base) of the collection a Name holds at `at`"""
+        ds = self.sc.rd.at(at, name) if at is not None else []
+        vals = [(d.value, d.node) for d in ds if d.kind == "assign" and not d.path and d.value is not None
+                and (self._derived_value(d.value) is not None or isinstance(d.value, ast.Name))]
+        return vals, len(vals) != len(ds) or not ds
+
+    def bases(self, e, at, depth=0):
+        """names of the collections built in place (filled, not derived) that `e` is made of"""
+        if depth > 6:
+            return set()
+        if isinstance(e, ast.Name):
+            vals, is_base = self._name_defs(e.id, at)
+            out = {e.id} if is_base else set()
+            for v, dn in vals:
+                out |= self.bases(v, dn, depth + 1)
+            return out
+        dv = self._derived_value(e)
+        if dv is None:
+            return set()
+        out = set()
+        for op in dv[1]:
+            out |= self.bases(op, at, depth + 1)
+        return out
+
+    def unguarded_removals(self, name, protected):
+        """removal sites on collection `name` that are not dominated by `<element> not in <protected>`"""
+        out = []
+        for site, elem, at in self.removals.get(name, []):
+            safe = False
+            if elem is not None and at is not None:
+                st = enclosing_stmt(self.pm, site)
+                atoms = guard_atoms(dominating_guards(self.g, self.pm, self.f.node, site, st))
+                want = unparse(elem).replace(" ", "")
+                for a, pol in atoms:
+                    a = a.replace(" ", "")
+                    if not pol and a == f"{want}in{protected}":
+                        safe = True
+            if not safe:
+                out.append(site)
+        return out
+
+    def superset_of(self, e, at, B, depth=0):
+        """(True, how) when the collection `e` evaluates to at `at` contains every pair of base collection B;
+        (False, why) otherwise"""
+        if depth > 6:
+            return False, "binding chain too deep"
+        if isinstance(e, ast.Name):
+            if e.id == B:
+                return True, f"`{B}` itself"
+            vals, is_base = self._name_defs(e.id, at)
+            if is_base or not vals:
+                return False, f"`{e.id}` is not built from `{B}`"
+            for v, dn in vals:
+                ok, why = self.superset_of(v, dn, B, depth + 1)
+                if not ok:
+                    return False, why
+                # pairs that enter B after the copy was taken are not in the copy
+                later = [n2 for _, n2 in self.fills.get(B, []) if n2 is not None and n2 in self.g.reachable([dn], include_starts=False)
+                         and at in self.g.reachable([n2])]
+                if later:
+                    return False, f"`{e.id}` is a copy taken (line {v.lineno}) before `{B}` is complete"
+            rem = self.unguarded_removals(e.id, B)
+            if rem:
+                r0 = rem[0]
+                return False, (f"`{e.id}` = `{unparse(vals[0][0])[:70]}` (line {vals[0][0].lineno}) is reduced afterwards by "
+                               f"`{unparse(r0)[:70]}` (line {r0.lineno}): the removal also takes out pairs that are in `{B}`")
+            return True, f"`{e.id}` = `{unparse(vals[0][0])[:60]}`, never reduced"
+        dv = self._derived_value(e)
+        if dv is None:
+            return False, f"`{unparse(e)[:60]}` is not understood as a collection built from `{B}`"
+        kind, ops = dv
+        if kind == "lossy":
+            return False, f"`{unparse(e)[:60]}` removes pairs"
+        whys = []
+        for op in ops:
+            ok, why = self.superset_of(op, at, B, depth + 1)
+            if ok:
+                return True, why
+            whys.append(why)
+        return False, "; ".join(whys[:2])
+
+    def param_fed(self, name):
+        """the collection receives, as such, pairs handed in by the caller (`B.update(<parameter>)`, `B = set(<parameter>)`)"""
+        def is_param(e):
+            while isinstance(e, ast.Call) and call_name(e) in _COPIES and len(e.args) == 1:
+                e = e.args[0]
+            return isinstance(e, ast.Name) and e.id in self.params and all(d.kind == "param" for d in self.sc.rd.defs if d.name == e.id)
+        for a, at in self.fills.get(name, []):
+            if is_param(a):
+                return unparse(a)
+        for d in self.sc.rd.defs:
+            if d.name == name and d.kind == "assign" and d.value is not None and not d.path and is_param(d.value) \
+                    and not isinstance(d.value, ast.Name):
+                return unparse(d.value)
+        return None
+
+
+def _is_cde_handler(h: ast.ExceptHandler) -> bool:
+    if h.type is None:
+        return False
+    ts = h.type.elts if isinstance(h.type, ast.Tuple) else [h.type]
+    return any((dotted(t) or "").rsplit(".", 1)[-1] == "CircularDependencyError" for t in ts)
+
+
+@R.rule("C19-R6", floor=3, template="T-FLOW/T-SIBLING",
+        desc="a consumer that retries the sort after CircularDependencyError (sort_tables_and_constraints, "
+             "Inspector.sort_tables_on_foreign_key_dependency) gives up only negotiable pairs: every pair collection of the "
+             "first attempt that the function never reduces itself, or that holds pairs handed in by the caller, is contained "
+             "in the pairs of every retry (the collection itself, or a union/copy built from it that is not reduced "
+             "afterwards), and caller-supplied pairs are never removed")
+def r6(ctx):
+    targets = [ctx.func(f"{TOPO}::sort"), ctx.func(f"{TOPO}::sort_as_subsets")]
+    per_fn = {}
+    for t in targets:
+        for f, c in call_sites(ctx.index, t):
+            if f.module.relpath == TOPO:
+                continue
+            per_fn.setdefault(f.key, (f, []))[1].append((c, t))
+    n_retry = 0
+    for fkey in sorted(per_fn):
+        f, calls = per_fn[fkey]
+        handlers = [h for h in walk_local(f.node) if isinstance(h, ast.ExceptHandler) and _is_cde_handler(h)]
+        if not handlers:
+            continue
+        ps = _PairSets(ctx, f)
+        g = ps.g
+        pm = ps.pm
+        firsts, retries = [], []
+        hnodes = [nid for h in handlers for nid in g.nodes_for(h)]
+        after = g.reachable(hnodes) if hnodes else set()
+        for c, t in sorted(calls, key=lambda ct: (ct[0].lineno, ct[0].col_offset)):
+            if not any(x is c for x in walk_local(f.node)):
+                continue    # inside a nested function
+            in_try = any(isinstance(a, ast.Try) and any(h in a.handlers for h in handlers) and any(x is c for b in a.body for x in ast.walk(b))
+                         for a in _ancestors(pm, c))
+            at = ps.sc.node_of(c)
+            if in_try:
+                firsts.append((c, t, at))
+            elif at in after:
+                retries.append((c, t, at))
+        if not firsts or not retries:
+            continue
+        n_retry += 1
+        ctx.functions_analysed.add(f.key)
+        # the pair collections of the first attempt
+        base_names = set()
+        for c, t, at in firsts:
+            a = arg_for(c, t, t.params[0])
+            ctx.require(a is not None, f"{f.key}: first sort attempt passes no pairs")
+            bs = ps.bases(a, at)
+            ctx.require(bs, f"{f.key}: pair collections of `{unparse(a)[:60]}` not understood")
+            base_names |= bs
+        protected = {}
+        for b in sorted(base_names):
+            fed = ps.param_fed(b)
+            if fed is not None:
+                protected[b] = f"holds the caller's `{fed}`"
+            elif not ps.removals.get(b):
+                protected[b] = "never reduced by the function"
+        # (1) caller supplied pairs are never removed
+        fed_sets = [b for b in protected if protected[b].startswith("holds")]
+        if fed_sets:
+            bad = [(b, r) for b in fed_sets for r in ps.removals.get(b, [])]
+            ctx.check(not bad, f"{f.key}:caller-pairs-never-removed",
+                      "; ".join(f"`{unparse(r[0])[:60]}` (line {r[0].lineno}) removes pairs from `{b}`, which {protected[b]}"
+                                for b, r in bad[:3]) + ": a dependency stated by the caller is dropped from the sort",
+                      f"{', '.join(fed_sets)}: no removal", f.loc)
+        # (2) every retry sorts a superset of the protected collections
+        for key, (c, t, at) in ordinal_keys(retries, lambda r: f"{f.key}:retry-sort-keeps-protected-pairs"):
+            a = arg_for(c, t, t.params[0])
+            ctx.require(a is not None, f"{f.key}: retry passes no pairs")
+            if not protected:
+                ctx.ok(key, f"every pair collection of the first attempt ({', '.join(sorted(base_names))}) is reduced by the "
+                            f"function itself: nothing is protected", nontrivial=False)
+                continue
+            lost = []
+            hows = []
+            for b in sorted(protected):
+                ok, why = ps.superset_of(a, at, b)
+                if ok:
+                    hows.append(f"{b}: {why}")
+                else:
+                    lost.append(f"`{b}` ({protected[b]}) is not contained: {why}")
+            ctx.check(not lost, key,
+                      f"the retry `{unparse(c)[:70]}` after CircularDependencyError does not sort every protected pair: "
+                      + "; ".join(lost) + " -- a fixed dependency that coincides with a pair given up by the cycle handler is "
+                      "no longer respected by the second sort, and a cycle among the fixed dependencies is no longer reported",
+                      "; ".join(hows), f"{f.module.path}:{c.lineno}")
+    ctx.require(n_retry >= 2, f"only {n_retry} consumer(s) retrying the sort after CircularDependencyError found")
 
 
 # ---------------------------------------------------------------------- self-test battery
@@ -1033,3 +1446,70 @@ R.mutant("benign-rfB1-replica", TOPO,
                sub("        todo = [t for t in todo if t in todo_set]\n",
                    "        still_remaining = []\n        for item in todo:\n            if item in todo_set:\n                still_remaining.append(item)\n        todo = still_remaining\n"),
                _rename_output), None)
+
+
+# ------------------------------------------------------------------ str2-h (round-2 seeds): R5 sibling agreement, R6 retry
+_SORT_LOOP = "    for set_ in sort_as_subsets(tuples, allitems):\n        yield from set_\n"
+_SAS_BUILD = "    for parent, child in tuples:\n        edges[child].add(parent)\n\n    todo"
+_FC_BUILD = "    for parent, child in tuples:\n        edges[parent].add(child)\n    nodes_to_test = set(edges).intersection(allitems)\n"
+R.mutant("r5-seed-sort-drops-reflexive-pairs", TOPO,
+         sub(_SORT_LOOP, "    tuples = [tup for tup in tuples if tup[0] is not tup[1]]\n\n" + _SORT_LOOP), "C19-R5")
+R.mutant("r5-sort-delegates-filtered-pairs-inline", TOPO,
+         sub(_SORT_LOOP, "    for set_ in sort_as_subsets(\n        [(p, c) for p, c in tuples if p != c], allitems\n    ):\n        yield from set_\n"), "C19-R5")
+R.mutant("r5-sort-delegates-filtered-items", TOPO,
+         sub(_SORT_LOOP, "    items = [i for i in allitems if i is not None]\n    for set_ in sort_as_subsets(tuples, items):\n        yield from set_\n"), "C19-R5")
+R.mutant("r5-sort-skips-single-item-subsets", TOPO,
+         sub(_SORT_LOOP, "    for set_ in sort_as_subsets(tuples, allitems):\n        if len(set_) > 1:\n            yield from set_\n"), "C19-R5")
+R.mutant("r5-sort-as-subsets-ignores-self-pairs", TOPO,
+         sub(_SAS_BUILD, "    for parent, child in tuples:\n        if parent is not child:\n            edges[child].add(parent)\n\n    todo"), "C19-R5")
+R.mutant("r5-find-cycles-ignores-self-pairs", TOPO,
+         sub(_FC_BUILD, "    for parent, child in tuples:\n        if parent is child:\n            continue\n        edges[parent].add(child)\n"
+                        "    nodes_to_test = set(edges).intersection(allitems)\n"), "C19-R5")
+R.mutant("benign-r5-sort-materialises-pairs-first", TOPO,
+         sub(_SORT_LOOP, "    pairs = [pair for pair in tuples]\n    items = list(allitems)\n"
+                         "    for subset in sort_as_subsets(pairs, items):\n        for item in subset:\n            yield item\n"), None)
+R.mutant("benign-r5-sort-keyword-arguments", TOPO,
+         sub(_SORT_LOOP, "    for set_ in sort_as_subsets(allitems=allitems, tuples=tuples):\n        yield from set_\n"), None)
+R.mutant("benign-r5-find-cycles-skips-pairs-of-non-items", TOPO,
+         sub(_FC_BUILD, "    items = set(allitems)\n    for parent, child in tuples:\n        if parent in items:\n            edges[parent].add(child)\n"
+                        "    nodes_to_test = set(edges).intersection(items)\n"), None)
+
+_DDL_FIRST = ("    try:\n        candidate_sort = list(\n            topological.sort(\n                fixed_dependencies.union(mutable_dependencies),\n"
+              "                tables,\n            )\n        )\n    except exc.CircularDependencyError as err:\n")
+_DDL_RETRY = ("        candidate_sort = list(\n            topological.sort(\n                fixed_dependencies.union(mutable_dependencies),\n"
+              "                tables,\n            )\n        )\n\n    return [\n")
+_DDL_DISCARD = "                        mutable_dependencies.discard((dependent_on, table))\n"
+_DDL_READD = ("                    dependent_on = fkc.referred_table\n                    if dependent_on is not table:\n"
+              "                        mutable_dependencies.add((dependent_on, table))\n        candidate_sort")
+R.mutant("r6-seed-combined-set-updated-in-place", "sql/ddl.py",
+         chain(sub(_DDL_FIRST, "    dependencies = fixed_dependencies.union(mutable_dependencies)\n\n    try:\n"
+                               "        candidate_sort = list(topological.sort(dependencies, tables))\n    except exc.CircularDependencyError as err:\n"),
+               sub(_DDL_DISCARD, _DDL_DISCARD + "                        dependencies.discard((dependent_on, table))\n"),
+               sub(_DDL_READD, _DDL_READD.replace("        candidate_sort", "                        dependencies.add((dependent_on, table))\n        candidate_sort")),
+               sub(_DDL_RETRY, "        candidate_sort = list(topological.sort(dependencies, tables))\n\n    return [\n")), "C19-R6")
+R.mutant("r6-handler-discards-from-fixed-dependencies", "sql/ddl.py",
+         sub(_DDL_DISCARD, _DDL_DISCARD + "                        fixed_dependencies.discard((dependent_on, table))\n"), "C19-R6")
+R.mutant("r6-retry-sorts-foreign-key-pairs-only", "sql/ddl.py",
+         sub(_DDL_RETRY, "        candidate_sort = list(\n            topological.sort(\n                mutable_dependencies,\n"
+                         "                tables,\n            )\n        )\n\n    return [\n"), "C19-R6")
+R.mutant("r6-retry-subtracts-error-edges-from-union", "sql/ddl.py",
+         sub(_DDL_RETRY, "        candidate_sort = list(\n            topological.sort(\n"
+                         "                fixed_dependencies.union(mutable_dependencies).difference(\n                    err.edges\n                ),\n"
+                         "                tables,\n            )\n        )\n\n    return [\n"), "C19-R6")
+R.mutant("benign-r6-union-in-local-rebuilt-for-retry", "sql/ddl.py",
+         chain(sub(_DDL_FIRST, "    dependencies = fixed_dependencies | mutable_dependencies\n\n    try:\n"
+                               "        candidate_sort = list(topological.sort(dependencies, tables))\n    except exc.CircularDependencyError as err:\n"),
+               sub(_DDL_RETRY, "        dependencies = fixed_dependencies | mutable_dependencies\n"
+                               "        candidate_sort = list(topological.sort(dependencies, tables))\n\n    return [\n")), None)
+R.mutant("benign-r6-combined-set-discard-guarded-by-fixed", "sql/ddl.py",
+         chain(sub(_DDL_FIRST, "    dependencies = fixed_dependencies.union(mutable_dependencies)\n\n    try:\n"
+                               "        candidate_sort = list(topological.sort(dependencies, tables))\n    except exc.CircularDependencyError as err:\n"),
+               sub(_DDL_DISCARD, _DDL_DISCARD + "                        pair = (dependent_on, table)\n"
+                                                "                        if pair not in fixed_dependencies:\n"
+                                                "                            dependencies.discard(pair)\n"),
+               sub(_DDL_READD, _DDL_READD.replace("        candidate_sort", "                        dependencies.add((dependent_on, table))\n        candidate_sort")),
+               sub(_DDL_RETRY, "        candidate_sort = list(topological.sort(dependencies, tables))\n\n    return [\n")), None)
+R.mutant("benign-r6-retry-after-the-handler", "sql/ddl.py",
+         chain(sub(_DDL_FIRST, "    candidate_sort = None\n" + _DDL_FIRST),
+               sub(_DDL_RETRY, "    if candidate_sort is None:\n        all_pairs = set(fixed_dependencies)\n        all_pairs.update(mutable_dependencies)\n"
+                               "        candidate_sort = list(topological.sort(all_pairs, tables))\n\n    return [\n")), None)
